@@ -8,7 +8,7 @@ def tasks(tier):
     return contract_tasks("contracts.scheduler", "C09", tier=tier) + contract_tasks("contracts.sim_process", "C09", tier=tier) \
         + contract_tasks("contracts.run_prelude", "C09", tier=tier) + contract_tasks("contracts.shutdown", "C09", tier=tier) \
         + contract_tasks("contracts.groups", "C11", tier=tier) + lemma_tasks("contracts.groups", "C11") \
-        + contract_tasks("contracts.tiered_time", "C08", names=["TimeAdd", "TimeLt", "IntervalAdd"])
+        + contract_tasks("contracts.tiered_time", "C08")
 
 
 TRUSTED_BASE = TRUSTED_CORE
